@@ -64,7 +64,9 @@ class LinObj(EditableModule):
         raise KeyError(methodname)
 
 
-GRIDS = {"inc": [0.0, 0.4, 1.0], "dec": [1.0, 0.5, -0.1], "ragged": [0.2, 0.25, 0.9, 1.0], "two": [0.0, 0.7]}
+GRIDS = {"inc": [0.0, 0.4, 1.0], "dec": [1.0, 0.5, -0.1], "ragged": [0.2, 0.25, 0.9, 1.0], "two": [0.0, 0.7],
+         # a repeated requested time (monotone, not strictly); times far from the origin with a spacing tiny relative to their magnitude
+         "repeated": [0.0, 0.4, 0.4, 1.0], "offset": [100.0, 100.002, 100.5]}
 FWD = {"rk45": dict(atol=1e-11, rtol=1e-10), "rk23": dict(atol=1e-10, rtol=1e-8), "rk4": dict(), "rk38": dict(), "euler": dict()}
 TOL = {"rk45": 5e-9, "rk23": 2e-6, "rk4": 2e-5, "rk38": 2e-5, "euler": 6e-2}
 SUB = {"rk4": 30, "rk38": 30, "euler": 400}
@@ -161,6 +163,9 @@ def run_case(tid, fam, method, gname, req, cot_idx, placement, probe_bwd, order2
         with warnings.catch_warnings():
             warnings.simplefilter("ignore")
             vh.set_sink(sink)
+            from vlib.ctx import TimeLimit
+            tl = TimeLimit(30)
+            tl.__enter__()
             yt = call()
             phase[0] = "bwd"
             yk = yt[keep]
@@ -197,19 +202,29 @@ def run_case(tid, fam, method, gname, req, cot_idx, placement, probe_bwd, order2
                         b0 = b if b is not None else torch.zeros_like(leaves[names.index(nm)])
                         a0 = a if a is not None else torch.zeros_like(b0)
                         verd.append(["grad2_%s_matches" % nm, bool(torch.allclose(a0, b0, atol=2e3 * tol, rtol=2e3 * tol))])
-    except Exception as e:
+    except (Exception, TimeoutError) as e:
         exc = e
     finally:
+        try:
+            tl.__exit__()
+        except Exception:
+            pass
         vh.set_sink(None)
     if probe_bwd and exc is None:
         # the first-order backward made one probe call per segment (second-order calls come after them)
         ny = y0.numel()
         first = segs[:nt - 1]
         ytd = yt.detach()
-        for s in first:
+        for si, s in enumerate(first):
             tsd = ts.detach()
-            kf = int(torch.argmin((tsd - s["ts"][0]).abs())) + 1
-            kt = int(torch.argmin((tsd - s["ts"][1]).abs())) + 1
+
+            def index_of_time(tval, expected):
+                # a repeated requested time has several indices: the one the segment loop is at, if it is among them
+                d = (tsd - tval).abs()
+                cands = [j + 1 for j in range(len(tsd)) if float(d[j]) == float(d.min())]
+                return expected if expected in cands else cands[0]
+            kf = index_of_time(s["ts"][0], nt - si)
+            kt = index_of_time(s["ts"][1], nt - si - 1)
             cot_ok = True
             if fam == "linear":
                 lam = torch.zeros(ny, dtype=DT)
@@ -247,6 +262,8 @@ def case_list(thorough):
     # protocol runs (probe as backward method)
     for fam in ("linear", "logistic", "tdep"):
         for gname in GRIDS:
+            if gname == "repeated":
+                continue        # whether an empty interval gets its own (trivial) segment is not the property's business: numeric runs only
             for req in (subsets if thorough else [{"y0", "p", "ts"}, {"p"}, {"y0"}]):
                 n = len(GRIDS[gname])
                 for cot in ([n - 1], list(range(n))):
@@ -255,7 +272,7 @@ def case_list(thorough):
     # numeric runs with the built-in backward (same method and options as forward), order 1 and 2
     for method in ("rk45", "rk23", "rk4", "rk38", "euler"):
         for fam in ("linear", "logistic", "tdep"):
-            for gname in (("inc", "dec", "ragged") if (thorough or method in ("rk45", "rk4")) else ("inc", "dec")):
+            for gname in (("inc", "dec", "ragged", "repeated", "offset") if (thorough or method in ("rk45", "rk4")) else ("inc", "dec", "repeated")):
                 for req in (subsets if (thorough or method == "rk45") else [{"y0", "p", "ts"}]):
                     n = len(GRIDS[gname])
                     order2 = method in ("rk45", "rk4") and (thorough or gname == "inc")
